@@ -723,6 +723,20 @@ func derivesOrAlloc(v ssa.Value, call *ssa.Call) bool {
 			return true
 		}
 	}
+	// a variable that starts out nil and is given the checked value afterwards
+	if ph, ok := v.(*ssa.Phi); ok {
+		n := 0
+		for _, e := range ph.Edges {
+			if isNilConst(Resolve(e)) {
+				continue
+			}
+			n++
+			if !derivesOrAlloc(Resolve(e), call) {
+				return false
+			}
+		}
+		return n > 0
+	}
 	return false
 }
 
